@@ -86,6 +86,8 @@ class UnitX(Unit):
         f = SRC + rel
         self.emit_flatten(out, G, rel, f, probe)
         self.emit_extension(out, G, rel, f, probe)
+        out.spec(spec_section('X_spec.rs', 'complex-type-spec'))
+        self.emit_complex_type(out, G, rel, f, probe)
         out.spec('}\n' + TAIL)
         return out
 
@@ -158,6 +160,34 @@ class UnitX(Unit):
                              'invariants': [('node-fixed', 'node == node0 && it.seq() == elem_kids(node)'),
                                             ('fields-so-far', 'appended(after_ext, base_fields@, cc_own(node, it.index@ as nat))')],
                              'body_prefix': BROADCAST + '\n        proof { assert(n == elem_kids(node)[it.index@ as int]); }'}})
+
+    def emit_complex_type(self, out, G, rel, f, probe):
+        im = G.top(rel, 'impl', r'.*TryFromNode.* for ComplexProps')
+        open_container(out, im, f)
+        for c in im.children:
+            if c.kind == 'type':
+                emit_verbatim(out, c, f)
+        fn = child(im, 'fn', 'try_from_node')
+        AFTER_CC = 'result = read_complex_content_node(element_name, n, doc)?;'
+        AFTER_SEQ = 'result = read_sequence_node(element_name, n, doc)?;'
+        splice_fn(out, fn, f, 'complex::ComplexProps::try_from_node', probe=probe,
+                  ensures=[('content-then-attributes', 'res is Ok ==> ct_ok(node, res->Ok_0.fields@)')],
+                  origin={'content-then-attributes': 'property'},
+                  opaque=[{'at': 'node.children().filter(Node::is_element)', 'call': 'element_children(node)', 'type': 'Vec<Node>', 'note': ELEM_CHILDREN_NOTE}],
+                  inserts=[{'pos': 'body_start', 'text': reveal('complexContent', 'sequence', 'attribute')},
+                           {'at': 'for n in', 'text': '        let ghost mut cj: int = -1;\n        let ghost mut cfs: Seq<Field> = Seq::empty();\n        let ghost mut cdoc: RustDocument = *doc;'},
+                           {'at': AFTER_CC, 'text': '                proof { cdoc = *doc; }'},
+                           {'at': AFTER_CC, 'where': 'after', 'text': '                proof { cj = it.index@ as int; cfs = result.fields@; }'},
+                           {'at': AFTER_SEQ, 'where': 'after', 'text': '                proof { cj = it.index@ as int; cfs = result.fields@; }'},
+                           {'at': 'Ok(result)', 'text': '        proof {\n            let at = attrs_between(node, cj + 1, elem_kids(node).len());\n'
+                                                        '            assert(result.fields@.take(result.fields@.len() - at.len()) =~= cfs);\n'
+                                                        '            if cj >= 0 { assert(content_ok(cdoc, elem_kids(node)[cj], result.fields@.take(result.fields@.len() - at.len()))); }\n        }'}],
+                  loops={0: {'kind': 'for', 'iter': 'it',
+                             'invariants': [('content-child-tracked', 'it.seq() == elem_kids(node) && cj == last_content(node, it.index@ as nat) && cj < it.index@ '
+                                                                      '&& (cj < 0 ==> cfs.len() == 0) && (cj >= 0 ==> content_ok(cdoc, elem_kids(node)[cj], cfs))'),
+                                            ('fields-so-far', 'appended(cfs, result.fields@, attrs_between(node, cj + 1, it.index@ as nat))')],
+                             'body_prefix': BROADCAST + '\n            proof { assert(n == elem_kids(node)[it.index@ as int]); }'}})
+        close_container(out, im, f)
 
     def props_of(self, ob):
         if ob.endswith('#safety') or ob.endswith('#decreases') or 'loop0-decreases' in ob:
